@@ -473,9 +473,30 @@ impl IncrementalEngine {
             {
                 // Validate that matched fact still exists (hasn't been retracted)
                 if let Some(matched_handle) = activation.matched_fact_handle {
-                    if self.working_memory.get(&matched_handle).is_none() {
-                        // Fact was retracted, skip this activation
-                        continue;
+                    match self.working_memory.get(&matched_handle) {
+                        None => {
+                            // Fact was retracted, skip this activation
+                            continue;
+                        }
+                        Some(fact) => {
+                            // Re-validate the activation: the fact may have been updated since the
+                            // activation was created, so the condition must still hold for its
+                            // current contents (same per-fact evaluation as during propagation)
+                            let mut single_fact_data = TypedFacts::new();
+                            for (key, value) in fact.data.get_all() {
+                                single_fact_data
+                                    .set(format!("{}.{}", fact.fact_type, key), value.clone());
+                            }
+                            single_fact_data.set_fact_handle(fact.fact_type.clone(), fact.handle);
+                            if !super::network::evaluate_rete_ul_node_typed(
+                                &rule.node,
+                                &single_fact_data,
+                                &self.custom_functions,
+                            ) {
+                                // Stale activation, skip it
+                                continue;
+                            }
+                        }
                     }
                 }
 
